@@ -1,17 +1,17 @@
 SPECIFICATION Spec
 CONSTANTS
-  Gor = {"g1", "g2", "g3"}
+  Gor = {"g1", "g2"}
   Eps = {"E"}
-  Svcs = {"e"}
+  Svcs = {"e", "t", "tx"}
   Adv <- AdvAll
   MaxReq = 1
   MaxLoss = 0
   AuthMayRefuse = FALSE
-  Dev_RUnlockUnderWriteLock = TRUE
-  Dev_NilChannelWhenAllSkipped = FALSE
+  Dev_RUnlockUnderWriteLock = FALSE
+  Dev_NilChannelWhenAllSkipped = TRUE
   Dev_AuthFailureLeaksConnection = FALSE
   Dev_DeadClientStaysInPool = FALSE
   Dev_PoolKeyedByAdvertised = FALSE
   Dev_CloserBeforeInsert = FALSE
-INVARIANTS TypeOK NoBadUnlock NoDeadlock
+INVARIANTS TypeOK ProcessAlive
 CHECK_DEADLOCK FALSE
